@@ -48,6 +48,8 @@ ParamLists == {NoParams} \cup {P1(a) : a \in Names}
               \* a default followed by a further parameter of a name used nowhere else (the harness spells a last parameter
               \* without default as a rest parameter every third time: `function f(a=b,...r){var b}`)
               \cup {<<[n |-> a, d |-> b], [n |-> "r", d |-> ""]>> : a \in Names, b \in Names}
+              \* a default naming a later parameter (first) and one naming an earlier parameter (last) of the same name
+              \cup UNION {{<<[n |-> a, d |-> b], [n |-> b, d |-> ""], [n |-> "r", d |-> b]>> : b \in Names \ {a}} : a \in Names}
 
 (* ------------------------------- structure of a program ------------------------------- *)
 \* parent[i] = index of the open item enclosing item i (0: the program)
@@ -109,7 +111,8 @@ OccOf(p, par, D, j) ==
         chIn   == Chain(p, par, j)                       \* for an open item: its own scope first
         Use(x, ch) == [n |-> x, b |-> Lookup(p, D, ch, x, FALSE)]
     IN
-    IF it.k = "decl" THEN <<Use(it.n, chHere)>>
+    \* the name in a declaration denotes the binding it declares (`var x;` inside catch (x): the function-level x, B.3.5)
+    IF it.k = "decl" THEN <<[n |-> it.n, b |-> <<(IF it.d = "var" THEN FuncOf(p, par, par[j]) ELSE par[j]), it.n>>]>>
     ELSE IF it.k = "use" THEN <<Use(it.n, chHere)>>
     ELSE IF it.k = "grp" THEN <<Use(it.a, chHere), Use(it.b, chHere)>>
     ELSE IF it.k = "open" THEN
@@ -154,6 +157,8 @@ MixedConflict(p) ==
                             LET s == Chain(p, par, par[j])[t] IN
                             s # d.sc /\ (\A u \in 1..(t - 1) : ~IsFunc(p, Chain(p, par, par[j])[u])) /\ ~IsFunc(p, s)
                             /\ LexItems(p, par, s, d.n) # {}
+                            \* (Annex B.3.5: `var x;` inside catch (x) {...} is allowed; it declares the function-level x)
+                            /\ ~(p[s].s = "catch" /\ p[j].k = "decl" /\ LexItems(p, par, s, d.n) = {s})
     IN (\E d \in D : d.lex /\ VarItems(p, par, d.sc, d.n) # {}) \/ Hoisted
 
 \* constructs whose treatment the property statement leaves open (or that this tree is known to treat specially): not emitted
@@ -169,7 +174,9 @@ Unsure(p) ==
     \/ \E j \in 1..Len(p) : p[j].k = "open" /\ p[j].s \in HasParams /\ (\E q \in 1..Len(p[j].ps) : p[j].ps[q].d # "")
                                /\ \E i \in 1..Len(p) : p[i].k \in {"decl", "open"} /\ i # j
                                      /\ \E d \in DeclsOf(p, par, i) : d.sc = j /\ ParamDeclared(p, j, d.n)
-    \/ \E j \in 1..Len(p) : p[j].k = "open" /\ p[j].s = "catch" /\ \E i \in 1..Len(p) : i # j /\ \E d \in DeclsOf(p, par, i) : d.n = p[j].n /\ j \in {Chain(p, par, par[i])[t] : t \in 1..Len(Chain(p, par, par[i]))}
+    \* a loop head `for (var x ...` inside catch (x) (an early error for for-of, allowed for the other loops: left open)
+    \/ \E j \in 1..Len(p) : p[j].k = "open" /\ p[j].s = "catch" /\ \E i \in 1..Len(p) : i # j /\ p[i].k = "open" /\ p[i].s = "forvar" /\ p[i].n = p[j].n
+                               /\ j \in {Chain(p, par, par[i])[t] : t \in 1..Len(Chain(p, par, par[i]))}
     \/ \E j \in 1..Len(p) : p[j].k = "open" /\ p[j].s \in HasParams /\ \E q \in 1..Len(p[j].ps) : \E d \in D : d.sc = j /\ d.n = p[j].ps[q].n /\ d.lex
 
 (* ------------------------------- behaviours ------------------------------- *)
